@@ -49,12 +49,12 @@ MIN_EVALS = {'quick': {'invariant(values numeric ndarray, len==npts, time==dt*ar
                        'purity.repeatable': 2000, 'purity.earlier-result-unchanged-by-later-call': 10000, 'ownership.caller-array-unchanged': 2500,
                        'ownership.object-unaffected-by-caller-writes': 350, 'ownership.object-to-object': 150,
                        'ownership.returned-signal-owns-its-data': 250, 'purity.repeatable-after-other-analysis-calls': 1800,
-                       'purity.signal-argument-observables-unchanged': 1800},
+                       'purity.signal-argument-observables-unchanged': 1800, 'purity.process-wide-numpy-state-restored': 15000},
              'thorough': {'invariant(values numeric ndarray, len==npts, time==dt*arange)': 500000, 'purity.args-unchanged': 300000,
                           'purity.repeatable': 50000, 'purity.earlier-result-unchanged-by-later-call': 200000, 'ownership.caller-array-unchanged': 60000,
                           'ownership.object-unaffected-by-caller-writes': 8000, 'ownership.object-to-object': 3500,
                           'ownership.returned-signal-owns-its-data': 6000, 'purity.repeatable-after-other-analysis-calls': 45000,
-                          'purity.signal-argument-observables-unchanged': 45000,
+                          'purity.signal-argument-observables-unchanged': 45000, 'purity.process-wide-numpy-state-restored': 300000,
                           'testsuite-under-monitors.completed': 1}}
 CTX = None
 CURRENT = {'history': None}
@@ -129,8 +129,39 @@ def snap(x, depth=0):
     return None
 
 
+class _Pre(tuple):
+    """(positional snapshots, keyword snapshots) plus the process-wide numerical state at call entry"""
+    state = None
+
+
+def proc_state():
+    """process-wide state a numerical function must hand back as it found it: NumPy's floating-point error mode, its print
+    options and the legacy global random stream"""
+    rs = np.random.get_state()
+    return (tuple(sorted(np.geterr().items())), tuple(sorted((k, repr(v)) for k, v in np.get_printoptions().items())),
+            (rs[1][:8].tobytes(), int(rs[2])))
+
+
+PROC = 'purity.process-wide-numpy-state-restored'
+
+
+def judge_proc_state(qual, state0, args, kwargs):
+    ctx = CTX
+    if ctx is None or state0 is None:
+        return
+    now = proc_state()
+    what = [n for n, a, b in zip(('np.geterr()', 'np.get_printoptions()', 'np.random global state'), state0, now) if a != b]
+    ctx.check(not what, PROC, lambda: {'kind': 'purity', 'function': qual, 'recipe': CURRENT.get('recipe'), 'changed': what,
+                                       'before': repr(state0[0]), 'after': repr(now[0])},
+              '%s returned with %s changed (before %s, after %s)' % (qual, what, state0[0], now[0]))
+    if what:      # put it back so that one leak is reported once and later calls are judged under the normal mode
+        np.seterr(**dict(state0[0]))
+
+
 def _pre_generic(args, kwargs):
-    return [snap(a) for a in args], {k: snap(v) for k, v in kwargs.items()}
+    p = _Pre(([snap(a) for a in args], {k: snap(v) for k, v in kwargs.items()}))
+    p.state = proc_state()
+    return p
 
 
 _LAST_RESULT = {}
@@ -208,6 +239,7 @@ def judge_purity(qual, args, kwargs, pre, raised=False):
     ctx = CTX
     if ctx is None or pre is None:
         return
+    judge_proc_state(qual, getattr(pre, 'state', None), args, kwargs)
     pa, pk = pre
     changed = []
     for i, a in enumerate(args):
@@ -416,6 +448,14 @@ def recipes(eqsig):
     reg('im.cumulative_response_spectra(default periods)', lambda rng, x, k: (im.cumulative_response_spectra, (A(x), 'arias_intensity'), {}))
     reg('im.calc_asi(default)', lambda rng, x, k: (im.calc_asi, (A(x),), {}))
     reg('sdof.calc_resp_uke_spectrum(default periods)', lambda rng, x, k: (sdof.calc_resp_uke_spectrum, (A(x),), {}))
+    # two-signal functions given companions that do not match (length differs by one or two samples, other time step): whether
+    # the library rejects or tolerates them, the caller's objects must come back unchanged
+    reg('multiple.compute_rotated(unequal lengths)', lambda rng, x, k: (eqsig.compute_rotated, (A(x), eqsig.AccSignal(np.asarray(x, dtype=float)[:-int(rng.integers(1, 3))][::-1], 0.01)), {'parameter': 'pga', 'points': 3}))
+    reg('multiple.compute_rotated(unequal lengths, longer second)', lambda rng, x, k: (eqsig.compute_rotated, (eqsig.AccSignal(np.asarray(x, dtype=float)[:-1], 0.01), A(x)), {'func': im.calc_cav, 'points': 3}))
+    reg('multiple.combine_at_angle(unequal lengths)', lambda rng, x, k: (eqsig.combine_at_angle, (A(x), eqsig.AccSignal(np.asarray(x, dtype=float)[1:], 0.01), 30.0), {}))
+    reg('multiple.combine_at_angle(other dt)', lambda rng, x, k: (eqsig.combine_at_angle, (A(x), eqsig.AccSignal(np.asarray(x, dtype=float)[::-1], 0.02), 45.0), {}))
+    reg('fns.calc_smooth_fa_spectrum(targets on the Fourier grid)', lambda rng, x, k: (lambda a: (eqsig.calc_smooth_fa_spectrum, (a.fa_freqs, a.fa_spectrum, np.array(a.fa_freqs[1:4])), {}))(A(x)))
+    reg('fns.calc_smoothing_matrix_konno_1998(targets on the Fourier grid)', lambda rng, x, k: (lambda a: (eqsig.calc_smoothing_matrix_konno_1998, (a.fa_freqs, np.array(a.fa_freqs[1:3])), {}))(A(x)))
     reg('design_spectra.c_h_factor', lambda rng, x, k: (ds.c_h_factor, (np.array([0.0, 0.2, 0.7, 2.0, 4.0]), 'D'), {}))
     return R
 
